@@ -1,6 +1,6 @@
 /-
   Model of `typelib.graph` (C09): the breadth-first construction of the type graph
-  (`get_type_graph`, graph.py:88-184) over an ABSTRACT annotation graph, and graphlib's
+  (`get_type_graph`, graph.py:88-188) over an ABSTRACT annotation graph, and graphlib's
   `TopologicalSorter.static_order` (insertion-ordered Kahn) on the produced `add` calls.
 
   An annotation graph gives every type object an id (objects that are `==` / hash-equal share an id,
@@ -16,7 +16,7 @@
 
   The harness extracts this structure from the real objects with the real helpers, so the model runs on
   the real child relation.  Types are assumed hashable (an unhashable one raises TypeError at
-  graph.py:138 before anything is built).
+  graph.py:138 before anything is built); `visited.add(unwrapped)` (graph.py:177-180) therefore always adds.
 -/
 import TypelibModel.Model.Basic
 namespace Typelib.Graph
@@ -58,7 +58,7 @@ def kidTys (t : Nat) : List Nat := (g.kids t).map Prod.snd
 
 end TyGraph
 
-/-- `TypeNode` (graph.py:189): identity = (type, unwrapped, var, cyclic).  `isRef`: the `type` field is a
+/-- `TypeNode` (graph.py:193): identity = (type, unwrapped, var, cyclic).  `isRef`: the `type` field is a
     `ForwardRef` built at graph.py:154 for the type object `ty` (the abstract model keeps the id of the
     type the reference stands for; the harness checks `refs.evaluate(node.type)` is that object). -/
 structure Node where
@@ -76,7 +76,7 @@ def seen (g : TyGraph) (vis : List Nat) (c : Nat) : Bool := vis.contains c || vi
 def refNode (g : TyGraph) (v : Option Str) (c : Nat) : Node :=
   { ty := c, unwrapped := if g.ucls c then g.unw c else c, var := v, cyclic := true, isRef := true }
 
-/-- The walked node of graph.py:169-172. -/
+/-- The walked node of graph.py:169-172 (`cyclic = is_rewalk`). -/
 def plainNode (g : TyGraph) (v : Option Str) (c : Nat) (cyc : Bool) : Node :=
   { ty := c, unwrapped := g.unw c, var := v, cyclic := cyc, isRef := false }
 
@@ -87,7 +87,7 @@ structure Exp where
   pushed : List Node
   deriving Repr
 
-/-- graph.py:126-180 for one parent: the members in order, threading `visited`. -/
+/-- graph.py:126-184 for one parent: the members in order, threading `visited`. -/
 def expand (g : TyGraph) : List Nat → List (Option Str × Nat) → Exp
   | vis, [] => { vis := vis, preds := [], pushed := [] }
   | vis, (v, c) :: rest =>
@@ -113,7 +113,7 @@ def rootNode (g : TyGraph) (root : Nat) : Node := plainNode g none root false
 def init (g : TyGraph) (root : Nat) : State :=
   { vis := [root, g.unw root], queue := [rootNode g root], adds := [] }
 
-/-- One iteration of `while stack:` (graph.py:116-182) for the popped parent `p`. -/
+/-- One iteration of `while stack:` (graph.py:116-186) for the popped parent `p`. -/
 def stepWith (g : TyGraph) (s : State) (p : Node) (rest : List Node) : State :=
   let r := expand g s.vis (g.kids p.ty)
   { vis := r.vis, queue := rest ++ r.pushed, adds := s.adds ++ [(p, r.preds)] }
